@@ -58,6 +58,24 @@ def cases(tier):
             out.append(("LIT-ARG %s %s" % (lname, a), "fn g(x: %s)\n{\n}\nfn f()\n{\n\tg(%s);\n}\n" % (a, lit), verdict))
             out.append(("LIT-RET %s %s" % (lname, a), "fn f() -> %s\n{\n\treturn: %s\n}\n" % (a, lit), verdict))
             out.append(("LIT-CMP %s %s" % (lname, a), "fn f(v: %s) -> bool\n{\n\tvar r: bool = false;\n\tif v == %s\n\t{\n\t\tr = true;\n\t}\n\treturn: r\n}\n" % (a, lit), verdict))
+    # negation folded into a suffixed literal: signed types only
+    for t in INTS_:
+        sg = t.startswith("i")
+        out.append(("NEG-INI %s" % t, "fn f()\n{\n\tvar x = -23%s;\n}\n" % t, "OK" if sg else None))
+        out.append(("NEG-OPD %s" % t, "fn f(v: %s) -> %s\n{\n\treturn: v + -1%s\n}\n" % (t, t, t), "OK" if sg else None))
+        out.append(("NEG-CMP %s" % t, "fn f(v: %s) -> bool\n{\n\tvar r: bool = false;\n\tif v > -1%s\n\t{\n\t\tr = true;\n\t}\n\treturn: r\n}\n" % (t, t), "OK" if sg else None))
+        out.append(("NEG-ARG %s" % t, "fn g(x: %s)\n{\n}\nfn f()\n{\n\tg(-5%s);\n}\n" % (t, t), "OK" if sg else None))
+    # arrays: the element types (lengths of nested arrays included) must be identical; only the outermost
+    # length may be dropped by the array-to-slice coercion
+    ELEMS = ["i32", "u8", "[3]i32", "[4]i32", "[3]u8", "[2][3]i32", "[2][4]i32"]
+    for e1 in ELEMS:
+        for e2 in ELEMS:
+            for n, m in ((2, 2), (2, 3)):
+                ok = "OK" if e1 == e2 else None
+                out.append(("ARR-SLICE %s %d %s" % (e1, m, e2), "fn g(x: []%s)\n{\n}\nfn f()\n{\n\tvar a: [%d]%s;\n\tg(a);\n}\n" % (e1, m, e2), ok))
+                out.append(("ARR-INI %d %s %d %s" % (n, e1, m, e2), "fn f()\n{\n\tvar a: [%d]%s;\n\tvar b: [%d]%s = a;\n}\n" % (m, e2, n, e1), None))   # arrays are never copied (E531)
+                out.append(("ARR-ASG %d %s %d %s" % (n, e1, m, e2), "fn f()\n{\n\tvar a: [%d]%s;\n\tvar b: [%d]%s;\n\tb = a;\n}\n" % (m, e2, n, e1), None))
+                out.append(("ARR-PTR %d %s %d %s" % (n, e1, m, e2), "fn g(x: &[%d]%s)\n{\n}\nfn f()\n{\n\tvar a: [%d]%s;\n\tg(&a);\n}\n" % (n, e1, m, e2), "OK" if e1 == e2 and n == m else None))
     for a in PRIMS:
         out.append(("MEMOK %s" % a, "struct H\n{\n\tm: %s,\n}\nfn f(v: %s)\n{\n\tvar h = H { m: v };\n}\n" % (a, a), "OK"))
     return out
